@@ -2815,6 +2815,7 @@ event_add_nolock_(struct event *ev, const struct timeval *tv,
 				if (ev->ev_ncalls && ev->ev_pncalls) {
 					/* Abort loop */
 					*ev->ev_pncalls = 0;
+					ev->ev_pncalls = NULL;
 				}
 			}
 
@@ -2954,6 +2955,7 @@ event_del_nolock_(struct event *ev, int blocking)
 		if (ev->ev_ncalls && ev->ev_pncalls) {
 			/* Abort loop */
 			*ev->ev_pncalls = 0;
+			ev->ev_pncalls = NULL;
 		}
 	}
 
